@@ -34,14 +34,14 @@ for cfg, dd in (('default', {}), ('ndebug', {'NDEBUG': 1}), ('assert_disable', {
 # ---- C05 assignment through views (storage-image oracle)
 U('C05', 'C05_assign.cpp', defines=dict(DIM=1, NB=3, SB=4, MEMSZ2=24), unwind=6, timeout=900)
 U('C05', 'C05_assign.cpp', defines=dict(DIM=2, NB=2, SB=3, MEMSZ2=16), unwind=6, timeout=900)
-U('C05', 'C05_assign.cpp', name='C05_assign_DIM3_quick', defines=dict(DIM=3, NB=2, SB=4, MEMSZ2=24), entries=['assign_view', 'assign_elements'], unwind=10, timeout=1200, slots=2)
+U('C05', 'C05_assign.cpp', name='C05_assign_DIM3_quick', defines=dict(DIM=3, NB=2, SB=4, MEMSZ2=24), entries=['assign_view', 'assign_elements', 'swap_assign_compact_permuted'], unwind=10, timeout=1200, slots=2)
 U('C05', 'C05_assign.cpp', defines=dict(DIM=2, NB=3, SB=4, MEMSZ2=32), unwind=11, timeout=3600, tier='thorough', backend='kissat')
 U('C05', 'C05_assign.cpp', defines=dict(DIM=3, NB=2, SB=3, MEMSZ2=32), unwind=10, timeout=3600, tier='thorough', backend='kissat')
 
 # ---- C07 equality and ordering
 U('C07', 'C07_compare.cpp', defines=dict(DIM=1, NB=3, SB=4, MEMSZ2=12), unwind=6, timeout=900)
 U('C07', 'C07_compare.cpp', defines=dict(DIM=2, NB=2, SB=3, MEMSZ2=12), unwind=7, timeout=900)
-U('C07', 'C07_compare.cpp', defines=dict(DIM=3, NB=2, SB=3, MEMSZ2=24), unwind=11, timeout=3600, tier='thorough', backend='kissat')
+U('C07', 'C07_compare.cpp', defines=dict(DIM=3, NB=2, SB=3, MEMSZ2=24), unwind=11, timeout=3600, tier='thorough', backend='kissat', skip_entries=['eq_order_aliased', 'order_views'])   # the two ordering entries get no verdict at D=3 within 3600 s (kissat and cadical): outside the claim
 U('C07', 'C07_compare.cpp', name='C07_triples_DIM2', defines=dict(DIM=2, NB=2, SB=3, MEMSZ2=12, TRIPLES=1), entries=['order_transitive'], unwind=7, timeout=3600, tier='thorough', backend='kissat')
 
 # ---- C04 value semantics of owning arrays (one operation from an arbitrary reachable pre-state; SLOT_CELLS = max elements per array)
@@ -57,6 +57,7 @@ U('C06', 'C06_reextent.cpp', defines=dict(DIM=1, NB=3, ELT='int', SLOT_CELLS=3),
 U('C06', 'C06_reextent.cpp', defines=dict(DIM=2, NB=2, ELT='int', SLOT_CELLS=4), unwind=7, timeout=1800, heap=128, slots=2)
 U('C06', 'C06_reextent.cpp', defines=dict(DIM=1, NB=2, ELT='Tr', SLOT_CELLS=3), unwind=6, timeout=1800, heap=128, slots=2)
 U('C06', 'C06_reextent.cpp', defines=dict(DIM=2, NB=2, ELT='Tr', SLOT_CELLS=4), unwind=7, timeout=3600, heap=128, tier='thorough', slots=2)
+U('C06', 'C06_reextent.cpp', name='C06_reextent_DIM2_Tr_rvalue', defines=dict(DIM=2, NB=2, ELT='Tr', SLOT_CELLS=4), entries=['reextent_rvalue'], unwind=7, timeout=1800, heap=128, slots=2)   # same element count, other shape: needs D>=2 and a non-trivially constructible element
 U('C06', 'C06_reextent.cpp', defines=dict(DIM=3, NB=2, ELT='int', SLOT_CELLS=8), entries=['reextent_k1', 'reextent_fill_k1', 'reshape_keeps_flat_sequence'], unwind=11, timeout=1800, heap=128, slots=2)
 
 # ---- C08 element lifetime and storage accounting (ghost bitmap + ledger; C04/C06 harnesses re-used with the tracked element type)
@@ -139,6 +140,11 @@ PE03 = {'equal_lexicographical': dict(unwind=24)}   # std::equal on the plain re
 U('C03', 'C03_algo.cpp', name='C03_1d_light', defines=dict(RANGE=1, NB=4, SB=3, MEMSZ2=12, VF_ROOT_CELLS=12), entries=LIGHT, unwind=7, timeout=900, heap=512, stubs=ALGO_STUBS, per_entry=PE03)
 U('C03', 'C03_algo.cpp', name='C03_1d_sort', defines=dict(RANGE=1, NB=3, SB=2, MEMSZ2=8, VF_ROOT_CELLS=8), entries=['sort'], unwind=6, timeout=900, heap=512, stubs=ALGO_STUBS)
 U('C03', 'C03_algo.cpp', name='C03_elements_light', defines=dict(RANGE=2, NB=2, SB=3, MEMSZ2=12, VF_ROOT_CELLS=12), entries=LIGHT, unwind=7, timeout=900, heap=512, stubs=ALGO_STUBS, per_entry=PE03)
+# proxy-row ranges (begin()/end() of an arbitrary 2-D view): six algorithm families in the quick tier, the two expensive ones (10 min, 6-9 GB) in the thorough tier
+ROWS_LIGHT = ['rows_reverse', 'rows_swap_ranges', 'rows_copy_move_backward', 'rows_shift_right', 'rows_fill', 'rows_partition']
+U('C03', 'C03_rows.cpp', name='C03_rows_light', defines=dict(NB=2, SB=3, MEMSZ2=12, VF_ROOT_CELLS=12), entries=ROWS_LIGHT, unwind=7, timeout=1200, heap=512, stubs=ALGO_STUBS)
+U('C03', 'C03_rows.cpp', name='C03_rows_heavy', defines=dict(NB=2, SB=3, MEMSZ2=12, VF_ROOT_CELLS=12), entries=['rows_queries', 'rows_remove_unique'], unwind=7, timeout=3600, heap=512, stubs=ALGO_STUBS, tier='thorough', slots=4)
+U('C03', 'C03_rows.cpp', name='C03_rows_try', defines=dict(NB=2, SB=3, MEMSZ2=12, VF_ROOT_CELLS=12), entries=['rows_rotate', 'rows_sort'], unwind=7, timeout=2400, heap=512, stubs=ALGO_STUBS, tier='thorough', slots=4)
 U('C03', 'C03_algo.cpp', name='C03_1d_heavy', defines=dict(RANGE=1, NB=3, SB=2, MEMSZ2=8, VF_ROOT_CELLS=8), entries=['rotate', 'partial_sort'], unwind=6, timeout=3600, heap=512, stubs=ALGO_STUBS, tier='thorough', slots=4)
 
 # C19 also runs the C01 step family itself (every view-forming operation applied to views with symbolic index bases in [-2,2])
